@@ -129,6 +129,22 @@ class C01(Plugin):
                         if k in (7, 8, 9) and blk == "div":
                             out.append({"markup": "<table><td>" + m, "fragment": False, "container": "div", "scripting": False, "ns": True})
                             out.append({"markup": m + "</div>z</%s>w" % f, "fragment": True, "container": "div", "scripting": False, "ns": True})
+        # the quirks / limited-quirks decision: public identifiers of every class x system identifier missing, empty,
+        # the IBM one, other x what the mode changes (a table start tag while a p is open)
+        pubs = ["-//W3C//DTD HTML 4.01 Transitional//EN", "-//W3C//DTD HTML 4.01 Frameset//EN", "-//W3C//DTD XHTML 1.0 Transitional//EN",
+                "-//W3C//DTD XHTML 1.0 Frameset//EN", "-//W3C//DTD HTML 3.2//EN", "HTML", "-//W3O//DTD W3 HTML Strict 3.0//EN//",
+                "-/W3C/DTD HTML 4.0 Transitional/EN", "-//W3C//DTD HTML 4.01//EN", "", "-//w3c//dtd html 4.01 transitional//en",
+                "-//W3C//DTD HTML 4.0 Transitional//EN", "+//Silmaril//dtd html Pro v0r11 19970101//x"]
+        syss = [None, "", "http://www.ibm.com/data/dtd/v11/ibmxhtml1-transitional.dtd", "x",
+                "HTTP://WWW.IBM.COM/data/dtd/v11/ibmxhtml1-transitional.dtd"]
+        for name in ("html", "HTML", "htm", ""):
+            for pb in (pubs if name == "html" else pubs[:2]):
+                for sy in syss:
+                    dt = "<!DOCTYPE %s PUBLIC \"%s\"%s>" % (name, pb, "" if sy is None else " '%s'" % sy)
+                    out.append({"markup": dt + "<p>a<table><tr><td>b", "fragment": False, "container": "div", "scripting": False, "ns": True})
+        for dt in ("<!DOCTYPE html SYSTEM ''>", "<!DOCTYPE html SYSTEM 'about:legacy-compat'>", "<!DOCTYPE html SYSTEM \"x\" y>", "<!DOCTYPE>",
+                   "<!DOCTYPE html PUBLIC>", "<!DOCTYPE html PUBLIC 'a' x>", "<!doctype html public \"-//W3C//DTD HTML 4.01 Frameset//EN\" \"\">"):
+            out.append({"markup": dt + "<p>a<table><tr><td>b", "fragment": False, "container": "div", "scripting": False, "ns": True})
         # formatting elements that differ only in attribute values / names (Noah's Ark, adoption agency)
         for f in ("b", "a", "font", "nobr"):
             for attrs in (["class=a", "class=b", "class=c", "class=d"], ["class=a"] * 4, ["id=a", "class=a", "id=a", "id=a title=t"],
